@@ -4,6 +4,7 @@ import BoolFn.Proofs.BddQuant
 import BoolFn.Proofs.BddOps
 import BoolFn.Proofs.QuantET
 import BoolFn.Proofs.Lits
+import BoolFn.Props.C03
 /-! # C06 — Existential and universal quantification eliminate variables one at a time
 
 Existentially (universally) quantifying a set of variables yields the function that is true at x
@@ -279,6 +280,35 @@ theorem forall_agree (vs : List α) (hnd : vs.Nodup) (e : Expr α) (t : Table α
   · apply Bool.eq_iff_iff.mpr
     rw [expr_forall vs hnd, g4]
     simp only [heb]
+end
+
+section
+variable [Ord α] [Std.TransOrd α] [Std.LawfulEqOrd α]
+
+/-- diagrams: `∃V.f = ¬∀V.¬f`, all three operations succeeding -/
+theorem bdd_duality (vs : List α) (hnd : vs.Nodup) (b : Bdd α) (hb : b.WF) :
+    ∃ hi lo, Bdd.existsQ vs b = .ok hi ∧ Bdd.forallQ vs (Bdd.not b) = .ok lo ∧
+      ∀ ρ, hi.den ρ = !(lo.den ρ) := by
+  obtain ⟨hnw, _, hnd'⟩ := C03.bdd_not b hb
+  obtain ⟨hi, g1, _, _, g4⟩ := bdd_exists vs hnd b hb
+  obtain ⟨lo, h1, _, _, h4⟩ := bdd_forall vs hnd (Bdd.not b) hnw
+  refine ⟨hi, lo, g1, h1, fun ρ => ?_⟩
+  apply Bool.eq_iff_iff.mpr
+  rw [g4, Bool.not_eq_true', ← Bool.not_eq_true, h4]
+  constructor
+  · intro ⟨σ, s₁, s₂⟩ h
+    have := h σ s₁
+    rw [hnd', s₂] at this
+    cases this
+  · intro h
+    apply Classical.byContradiction
+    intro hn
+    apply h
+    intro σ hσ
+    rw [hnd']
+    cases hd : b.den σ
+    · rfl
+    · exact absurd ⟨σ, hσ, hd⟩ hn
 end
 
 /-- the pre-repair definition `F[all=0] ∘ F[all=1]`, written out, is wrong for two variables:
